@@ -253,6 +253,50 @@ preferred (void)
     vh_viol ("null-or-empty-not-invalid", "{\"replay\":\"p\"}");
 }
 
+/* long settings: a valid setting of every method followed by a tail that reaches past the 384-byte fields, with each forbidden
+   byte class at offsets around 384 and at the end: crypt and crypt_checksalt must agree (a setting crypt hashes is never INVALID) */
+static void
+long_settings (int m)
+{
+  static const int lens[] = { 385, 400, 600, 1000 };
+  static const unsigned char bad[] = { 0, ':', '*', '!', ' ', 0x7f, 0x80, '\n' };      /* 0 = no forbidden byte */
+  static char S[1100];
+  char sig[128];
+  const char *base = vh_cheap[m][0];
+  size_t bl = strlen (base);
+  for (unsigned li = 0; li < sizeof lens / sizeof *lens; li++)
+    for (unsigned bi = 0; bi < sizeof bad; bi++)
+      for (int pk = 0; pk < 4; pk++)
+        {
+          int L = lens[li], pos = pk == 0 ? 383 : pk == 1 ? 384 : pk == 2 ? 390 : L - 1;
+          if (pos >= L || pos <= (int) bl)
+            continue;
+          memcpy (S, base, bl);
+          S[bl] = '$';
+          for (int i = (int) bl + 1; i < L; i++)
+            S[i] = A64[(i * 3 + 2) % 64];
+          S[L] = 0;
+          if (bad[bi])
+            S[pos] = (char) bad[bi];
+          int cs = crypt_checksalt (S);
+          char *h = crypt_rn ("pw", S, D, sizeof *D);
+          vh_stat ("evaluations", 2);
+          vh_stat ("long_setting_cases", 1);
+          if (h && cs == CRYPT_SALT_INVALID)
+            {
+              snprintf (sig, sizeof sig, "hashed-setting-classified-invalid/long-setting/method=%s", vh_methods[m].name);
+              vh_viol (sig, "{\"method\":\"%s\",\"setting_length\":%d,\"byte\":%d,\"offset\":%d,\"checksalt\":%d,\"replay\":\"L:%d\"}", vh_methods[m].name, L, bad[bi], pos, cs, m);
+              return;
+            }
+          if (bad[bi] && cs != CRYPT_SALT_INVALID)
+            {
+              snprintf (sig, sizeof sig, "ill-charactered-long-setting-not-invalid/method=%s", vh_methods[m].name);
+              vh_viol (sig, "{\"method\":\"%s\",\"setting_length\":%d,\"byte\":%d,\"offset\":%d,\"checksalt\":%d,\"replay\":\"L:%d\"}", vh_methods[m].name, L, bad[bi], pos, cs, m);
+              return;
+            }
+        }
+}
+
 int
 main (int argc, char **argv)
 {
@@ -273,6 +317,8 @@ main (int argc, char **argv)
         tags_by_first (a);
       else if (sscanf (vh_replay, "g:%d", &a) == 1)
         generated (&L, a);
+      else if (sscanf (vh_replay, "L:%d", &a) == 1)
+        long_settings (a);
       else
         preferred ();
       vh_done ();
@@ -281,6 +327,9 @@ main (int argc, char **argv)
   uint64_t idx = 0;
   if (vh_mine (idx++))
     preferred ();
+  for (int m = 0; m < M_COUNT; m++)
+    if (vh_mine (idx++))
+      long_settings (m);
   for (int c0 = 0; c0 < 65; c0++)
     if (vh_mine (idx++))
       tags_by_first (c0);
